@@ -1,6 +1,7 @@
 import BPT.Props.C12
 import BPT.C.Errors
 import BPT.C.Gc
+import BPT.C.Dealloc
 /-
   C13 — the C extension is memory-safe and balances reference counts.
 
@@ -90,6 +91,19 @@ theorem gc_traverse_exact_along_histories (c : Nat) (h4 : 4 ≤ c) (h16 : c < 2 
       gcTraverse s' = slots s' ∧ (gcClear s').dec = slots s' ∧ (gcClear s').inc = [] := by
   obtain ⟨s0, s', h0, h1, h2⟩ := no_out_of_bounds_along_histories (K := K) (V := V) c h4 h16 ops
   exact ⟨s0, s', h0, h1, gc_traverse_exact s' h2⟩
+
+/-- **the destructor as written** — `BPlusTree_dealloc` = `BPlusTree_clear` (`Py_CLEAR` on every slot) followed by
+    `node_destroy` (`Py_XDECREF` on every slot), both transcribed over nullable slots — releases every reference the
+    tree owns exactly once and takes none: the first pass stores NULL before it releases, the second skips NULL -/
+theorem dealloc_two_pass_balanced (s : CState K V) (hi : CInv s) :
+    (deallocTwoPass s).dec = slots s ∧ (deallocTwoPass s).inc = [] := by
+  rw [deallocTwoPass_eq_dealloc s hi]; exact dealloc_releases_all s
+
+/-- … and what the NULL store is for: if the first pass released without nulling, every reference would be released twice -/
+theorem dealloc_without_nulling_double_release (s : CState K V) (hi : CInv s) :
+    (clearPassNoNull ((gcVisit s.height s.root).map some)).1 ++
+      destroyPass (clearPassNoNull ((gcVisit s.height s.root).map some)).2 = slots s ++ slots s :=
+  dealloc_without_nulling_releases_twice s hi
 
 /-- the shape part of the invariant is what the loops rely on: with `num_keys` and the value array out of step a slot
     goes unreported (a leaked cycle) -/
